@@ -1,0 +1,86 @@
+//! Verification hooks (feature `verif-hooks`, off by default).
+//!
+//! Everything here is thread-local and either read-only with respect to the
+//! engine's state or steers a choice the engine otherwise makes at random
+//! (the SIMD anchor position), so that external monitors can observe and
+//! explore behaviour deterministically. With the feature disabled none of
+//! this code is compiled.
+
+use std::cell::{Cell, RefCell};
+
+/// Kind of substring searcher selected when compiling a `contains` expression.
+#[derive(Clone, Copy, Debug, PartialEq, Eq, Hash)]
+pub enum SearcherKind {
+    /// Empty pattern shortcut.
+    Empty,
+    /// Single byte shortcut.
+    Memchr,
+    /// AVX2 searcher specialised for a fixed-size needle (2..=16 bytes).
+    Avx2Array,
+    /// AVX2 searcher for needles longer than 16 bytes.
+    Avx2Boxed,
+    /// Scalar fallback.
+    Memmem,
+}
+
+/// Record of one searcher selection.
+#[derive(Clone, Copy, Debug, PartialEq, Eq, Hash)]
+pub struct SearcherEvent {
+    /// Which searcher was built.
+    pub kind: SearcherKind,
+    /// Length of the needle.
+    pub needle_len: usize,
+    /// Anchor position given to the SIMD searcher (0 when not applicable).
+    pub position: usize,
+}
+
+thread_local! {
+    static ANCHOR_OVERRIDE: Cell<Option<usize>> = const { Cell::new(None) };
+    static SEARCHER_LOG: RefCell<Vec<SearcherEvent>> = const { RefCell::new(Vec::new()) };
+    static NESTING_MAX: Cell<u16> = const { Cell::new(0) };
+}
+
+/// Forces the SIMD anchor position used by `contains` compilations on this
+/// thread (`None` restores the random choice). Values outside `1..len` are
+/// ignored for that compilation.
+pub fn set_anchor_override(position: Option<usize>) {
+    ANCHOR_OVERRIDE.with(|c| c.set(position));
+}
+
+#[inline]
+pub(crate) fn anchor_override(random: usize, len: usize) -> usize {
+    match ANCHOR_OVERRIDE.with(|c| c.get()) {
+        Some(p) if p >= 1 && p < len => p,
+        _ => random,
+    }
+}
+
+#[inline]
+pub(crate) fn note_searcher(kind: SearcherKind, needle_len: usize, position: usize) {
+    SEARCHER_LOG.with(|log| {
+        log.borrow_mut().push(SearcherEvent {
+            kind,
+            needle_len,
+            position,
+        })
+    });
+}
+
+/// Returns and clears the searcher selections recorded on this thread.
+pub fn take_searcher_log() -> Vec<SearcherEvent> {
+    SEARCHER_LOG.with(|log| std::mem::take(&mut *log.borrow_mut()))
+}
+
+#[inline]
+pub(crate) fn note_nesting(depth: u16) {
+    NESTING_MAX.with(|c| {
+        if depth > c.get() {
+            c.set(depth)
+        }
+    });
+}
+
+/// Returns and resets the maximum parser nesting depth reached on this thread.
+pub fn take_max_nesting() -> u16 {
+    NESTING_MAX.with(|c| c.replace(0))
+}
